@@ -9,6 +9,7 @@ let run (_args : string list) =
     let inp = L.hd fs in
     let entry = S.get inp 0 in
     let hex = if S.length inp > 2 then S.trim (S.sub inp 2 (S.length inp - 2)) else "" in
+    let hex = (match S.index_opt hex ' ' with Some i -> S.sub hex 0 i | None -> hex) in
     let cls =
       match entry with
       | 'M' -> Drv_c11.pres (PtnMove.parse_move (bytes_of_hex hex))
@@ -24,6 +25,20 @@ let run (_args : string list) =
         let ((a, b), (c, d), ((e, f), g)) = (BotLine.parse_tell l, BotLine.parse_shout l, BotLine.parse_shout_room l) in
         let re_same = (BotLine.re_tell l = (a, b)) && (BotLine.re_shout l = (c, d)) && (BotLine.re_shout_room l = ((e, f), g)) in
         Printf.sprintf "OK %s,%s;%s,%s;%s,%s,%s%s" (h a) (h b) (h c) (h d) (h e) (h f) (h g) (if re_same then "" else " !re_match-differs")
-      | _ -> L.nth fs 1      (* weight JSON is a wrapper around encoding/json: no model, oracle only *)
+      | 'J' ->
+        (* encoding/json is trusted; the Go-specific part (the loop over the decoded map: name lookup in the regenerated
+           table, ws[f] = v) is WeightsJson.unmarshal_post: whenever the text decoded into map[string]int64 the model's
+           class must be what Weights.UnmarshalJSON did *)
+        (match words inp with
+         | [_; _; pairs] when S.length pairs > 0 && S.get pairs 0 = '=' ->
+           let body = S.sub pairs 1 (S.length pairs - 1) in
+           let ps = if body = "" then [] else L.map (fun kv ->
+             match S.split_on_char ':' kv with
+             | [k; v] -> (bytes_of_hex k, z_of_string v)
+             | _ -> failwith "c13 J pair") (S.split_on_char ',' body) in
+           (match WeightsJson.unmarshal_post WeightsJson.gen_names WeightsJson.gen_maxf ps (WeightsJson.zeros WeightsJson.gen_maxf) with
+            | PtnMove.Ok _ -> "OK" | PtnMove.Err -> "ERR" | PtnMove.Panic -> "PANIC")
+         | _ -> L.nth fs 1)
+      | _ -> L.nth fs 1
     in
     (cls, None, None))
